@@ -3,8 +3,108 @@
 use rvh::drv::*;
 use serde_json::Value;
 
+/// Supervisor: the real work runs in a child process so that a crash of the (unchecked) code under
+/// test is observed, attributed to a case and reported, instead of taking the check down with it.
+fn supervise(args: &[String]) -> ! {
+    use std::process::Command;
+    let exe = std::env::current_exe().expect("current_exe");
+    let prop = args[1].clone();
+    let timeout = std::env::var("VERIF_WALL_LIMIT_S").ok().and_then(|s| s.parse::<u64>().ok()).unwrap_or(4 * 3600);
+    let run = |extra_env: &[(&str, String)], extra_args: &[String]| -> (Option<i32>, bool) {
+        let mut cmd = Command::new(&exe);
+        cmd.args(&args[1..]).args(extra_args).env("VERIF_CHILD", "1");
+        for (k, v) in extra_env {
+            cmd.env(k, v);
+        }
+        let mut child = cmd.spawn().expect("spawn child");
+        let t0 = std::time::Instant::now();
+        loop {
+            match child.try_wait() {
+                Ok(Some(st)) => return (st.code(), false),
+                Ok(None) => {
+                    if t0.elapsed().as_secs() > timeout {
+                        let _ = child.kill();
+                        let _ = child.wait();
+                        return (None, true);
+                    }
+                    std::thread::sleep(std::time::Duration::from_millis(20));
+                }
+                Err(_) => return (None, false),
+            }
+        }
+    };
+    let (code, timed_out) = run(&[], &[]);
+    if timed_out {
+        println!("INCONCLUSIVE property={} reason=wall-clock watchdog ({} s) fired; no verdict", prop, timeout);
+        std::process::exit(2);
+    }
+    if let Some(c) = code {
+        if c == 0 || c == 1 || c == 2 {
+            std::process::exit(c);
+        }
+    }
+    println!("child process died abnormally (status {:?}); re-running with a case journal to find the culprit", code);
+    let is_replay = args.iter().any(|a| a == "--replay");
+    if is_replay {
+        let path = args.iter().position(|a| a == "--replay").and_then(|i| args.get(i + 1)).cloned().unwrap_or_default();
+        println!("  the replayed case crashes the process (status {:?})", code);
+        println!("VIOLATION property={} replay={}", prop, path);
+        std::process::exit(1);
+    }
+    let vd = verif_dir();
+    let jdir = format!("{}/work/journal-{}-{}", vd, prop, std::process::id());
+    let _ = std::fs::remove_dir_all(&jdir);
+    std::fs::create_dir_all(&jdir).expect("journal dir");
+    let (code2, _) = run(&[("VERIF_JOURNAL", jdir.clone())], &[]);
+    let mut found = 0;
+    if !matches!(code2, Some(0) | Some(1) | Some(2)) {
+        let mut files: Vec<_> = std::fs::read_dir(&jdir).map(|rd| rd.filter_map(|e| e.ok()).map(|e| e.path()).collect()).unwrap_or_default();
+        files.sort();
+        for f in files {
+            let fname = f.file_name().unwrap().to_string_lossy().to_string();
+            let vname = fname.split('@').next().unwrap_or("").to_string();
+            let (c3, _) = run(&[], &["--journal-replay".to_string(), f.to_string_lossy().to_string()]);
+            if matches!(c3, Some(0) | Some(2)) {
+                continue;
+            }
+            if c3 == Some(1) {
+                // an ordinary failure of that case; the child has printed it
+                found += 1;
+                continue;
+            }
+            // crashed: render the case (generation does not touch the code under test) and report it
+            if let Some(choices) = read_journal(&f.to_string_lossy()) {
+                let vars = rvh::props::variants(&prop);
+                if let Some(var) = vars.iter().find(|x| x.name == vname) {
+                    let tier = if args.iter().any(|a| a == "thorough") || std::env::var("VERIF_TIER").ok().as_deref() == Some("thorough") { Tier::Thorough } else { Tier::Quick };
+                    let mut src = rvh::src::Src::new(&choices);
+                    let case = (var.gen)(&mut src, tier);
+                    let dir = format!("{}/violations/{}", vd, prop);
+                    let _ = std::fs::create_dir_all(&dir);
+                    let path = format!("{}/{}-crash-{:016x}.json", dir, vname, case.hash());
+                    let doc = serde_json::json!({"property": prop, "variant": vname, "case": case.to_json(),
+                        "message": format!("the process running this case died abnormally (exit status {:?}): memory-unsafe behaviour or abort in the code under test", c3)});
+                    let _ = std::fs::write(&path, serde_json::to_string_pretty(&doc).unwrap());
+                    println!("  violation[{}]: {} :: process died (status {:?})", vname, case.show(), c3);
+                    println!("VIOLATION property={} replay={}", prop, path);
+                    found += 1;
+                }
+            }
+        }
+    }
+    let _ = std::fs::remove_dir_all(&jdir);
+    if found > 0 {
+        std::process::exit(1);
+    }
+    println!("INCONCLUSIVE property={} reason=abnormal termination that did not reproduce on any single journaled case", prop);
+    std::process::exit(2);
+}
+
 fn main() {
     let args: Vec<String> = std::env::args().collect();
+    if args.len() >= 2 && std::env::var("VERIF_CHILD").is_err() {
+        supervise(&args);
+    }
     if args.len() < 2 {
         eprintln!("usage: check <ID> [--tier quick|thorough] [--seed N] [--replay FILE]");
         std::process::exit(2);
@@ -16,6 +116,7 @@ fn main() {
     };
     let mut seed: u64 = std::env::var("VERIF_SEED").ok().and_then(|s| s.parse().ok()).unwrap_or(1);
     let mut replay: Option<String> = None;
+    let mut jreplay: Option<String> = None;
     let mut i = 2;
     while i < args.len() {
         match args[i].as_str() {
@@ -31,12 +132,42 @@ fn main() {
                 replay = args.get(i + 1).cloned();
                 i += 1;
             }
+            "--journal-replay" => {
+                jreplay = args.get(i + 1).cloned();
+                i += 1;
+            }
             _ => {}
         }
         i += 1;
     }
     rvh::run::install_quiet_panic_hook();
     let ctx = Ctx::new(&prop, tier, seed);
+
+    if let Some(path) = jreplay {
+        let fname = std::path::Path::new(&path).file_name().unwrap().to_string_lossy().to_string();
+        let vname = fname.split('@').next().unwrap_or("").to_string();
+        let choices = read_journal(&path).unwrap_or_default();
+        let vars = rvh::props::variants(&prop);
+        let var = match vars.iter().find(|x| x.name == vname) {
+            Some(v) => v,
+            None => std::process::exit(2),
+        };
+        let mut src = rvh::src::Src::new(&choices);
+        let case = (var.gen)(&mut src, tier);
+        let mut l = Local::default();
+        match (var.check)(&case, &mut l) {
+            Verdict::Fail(msg) => {
+                ctx.add_violation(var.name, &case, &msg);
+                let agg = ctx.agg.lock().unwrap();
+                for v in agg.violations.iter() {
+                    println!("  violation[{}]: {} :: {}", v.variant, v.show, v.msg);
+                    println!("VIOLATION property={} replay={}", prop, v.path);
+                }
+                std::process::exit(1);
+            }
+            _ => std::process::exit(0),
+        }
+    }
 
     if let Some(path) = replay {
         let txt = std::fs::read_to_string(&path).unwrap_or_else(|e| {
